@@ -243,7 +243,11 @@ PruneOK(tr, sn, w) ==
     LET have == RecTimes(tr)
         old == {x \in sn : x < w}
     IN /\ Chk("prune-keeps-window", \A x \in sn : x >= w => x \in have)
-       /\ Chk("prune-keeps-newest-older", old # {} => T!MaxOf(old) \in have)
+       \* Times are logged in whole milliseconds.  In jitter histories (odd seed: every millisecond carries its own
+       \* sub-millisecond offset) a record logged AT w may really be older than the keep time (block time - keep
+       \* period, with the offset of ANOTHER millisecond): then it is itself the newest older record and the ones
+       \* before it may go.  It is always kept (clause above), so the demand is dropped in exactly that case.
+       /\ Chk("prune-keeps-newest-older", old # {} => (T!MaxOf(old) \in have \/ (conf.seed % 2 = 1 /\ w \in sn)))
 
 TraceInit ==
     /\ HWInit
